@@ -187,6 +187,27 @@ func c09ShareSpec(c *sim.Ctx) *ref.Spec {
 	return s
 }
 
+// c09QuotaSpec: an action computes a number (an integer), and after the next message a
+// bindings branch compares it with a bound through an inequality variable.
+func c09QuotaSpec(c *sim.Ctx) *ref.Spec {
+	iv := []string{"?<q", "?<=q", "?>q", "?>=q", "?!=q"}[c.Intn(5, "quotavar")]
+	use := &ref.Action{Ops: []ref.Op{
+		{Kind: "set", K: "used", V: []interface{}{1.0, 2.0, 3.0, 2.5}[c.Intn(4, "used")]},
+		{Kind: "set", K: iv, V: []interface{}{2.0, 3.0, 1.5}[c.Intn(3, "quota")]},
+		{Kind: "del", K: "?q"}}}
+	emit := func(e float64) *ref.Action {
+		return &ref.Action{Ops: []ref.Op{{Kind: "emit", V: map[string]interface{}{"e": e, "to": "x"}}, {Kind: "emitb", K: "?q"}, {Kind: "del", K: "?q"}}}
+	}
+	return &ref.Spec{Nodes: map[string]*ref.Node{
+		"n0":    {HasBr: true, Type: "message", Branches: []*ref.Branch{{Target: "use"}}},
+		"use":   {Action: use, HasBr: true, Type: "bindings", Branches: []*ref.Branch{{Target: "w"}}},
+		"w":     {HasBr: true, Type: "message", Branches: []*ref.Branch{{Target: "check"}}},
+		"check": {HasBr: true, Type: "bindings", Branches: []*ref.Branch{{HasPat: true, Pattern: map[string]interface{}{"used": iv}, Target: "ok"}, {Target: "over"}}},
+		"ok":    {Action: emit(1), HasBr: true, Type: "bindings", Branches: []*ref.Branch{{Target: "n0"}}},
+		"over":  {Action: emit(2), HasBr: true, Type: "bindings", Branches: []*ref.Branch{{Target: "n0"}}},
+	}}
+}
+
 // c09ExtSpec: an action of the extended interpreter keeps what the _.match utility
 // returned in its bindings; after the next message a pattern looks into it.
 func c09ExtSpec(c *sim.Ctx) *ref.Spec {
@@ -256,7 +277,9 @@ func runC09(c *sim.Ctx, t *testing.T) {
 	defer sim.Uninstall()
 	var gs *ref.Spec
 	genExt = false
-	switch c.Intn(8, "speckind") {
+	switch c.Intn(9, "speckind") {
+	case 8:
+		gs = c09QuotaSpec(c)
 	case 0, 1:
 		gs = genSpec(c, genCfg{failOps: true, permanents: true, guards: true, loops: true, maxNodes: 5})
 	case 2:
